@@ -46,6 +46,11 @@ def layouts(text, seed):
         # verbatim multi-group setting / non-canonical spelling: a copy made by re-parsing the text would split or re-spell it
         hs.append([['plain', text], ['apply', R['q'], 0, max(1, L - 1), True]])
         hs.append([['rainbow', text], ['apply', R['o'], min(1, L - 1), L, True]])
+    if L >= 4:
+        # three settings on top of each other from the start, the outer two ending together and the middle one elsewhere
+        # (before the end of the text): what follows a match then has three settings to carry across the seam
+        for (a, b) in ((L - 2, L - 1), (L - 1, L - 2)):
+            hs.append([['plain', text], ['apply', R['R'], 0, a, True], ['apply', R['W'], 0, b, True], ['apply', R['U'], 0, a, True]])
     return hs
 
 
